@@ -31,6 +31,8 @@ func checkC02(w *World, r *Report) {
 	r.Rule("R02.3", "no per-stream open/negotiation inside the upstream mutex", 1)
 	r.Rule("R02.4", "every io.CopyBuffer call uses a buffer that is private to that copy", 10)
 	r.Rule("R02.5", "only session set-up failure and Shutdown close the shared physical connection", 2)
+	r.Rule("R02.7", "the shared smux receive window is not reduced below the library default (one unread connection must not stall the others)", 1)
+	ruleSmuxBuffers(w, r, "R02.7")
 	r.Rule("R02.6", "every serving goroutine works on the stream accepted for it (no shared re-assigned variable)", 1)
 
 	ruleAcceptLoopNotOccupied(w, r, "R02.1", map[string]bool{"stream": true}, nil)
@@ -312,6 +314,8 @@ func checkC15(w *World, r *Report) {
 	r.Trusted = []string{"net/http serves each request on its own goroutine", "calls into libraries are non-blocking unless listed as blocking primitives"}
 	r.Rule("R15.1", "server listener accept loops hand the peer handshake to a goroutine", 2)
 	r.Rule("R15.2", "no server-side goroutine re-locks a mutex it already holds (one stale peer must not wedge the user table)", 1)
+	r.Rule("R15.4", "the websocket router carries no middleware that bounds the number or the duration of requests (a request lasts as long as its session)", 1)
+	ruleRouterMiddleware(w, r, "R15.4")
 	r.Rule("R15.3", "nothing waits for a peer while the table of all DNS peers is locked", 1)
 	ruleNoWaitUnderLock(w, r, "R15.3", func(m *types.Var) bool {
 		return m.Name() == "usersLock" || strings.HasPrefix(fieldOwner(m), "server.")
@@ -897,4 +901,124 @@ func dominatedByErrNonNil(fn *ssa.Function, in ssa.Instruction, errv ssa.Value) 
 		}
 	}
 	return false
+}
+
+// ruleSmuxBuffers: smux v1 shares ONE receive token bucket (MaxReceiveBuffer, default 4 MiB) between all
+// streams of a session and stops reading the carrier while it is empty. Reducing it lets a single logical
+// connection whose consumer is slow freeze every other logical connection. The per-stream buffer
+// (MaxStreamBuffer, default 64 KiB) bounds what one stream can hold; it must stay below the shared bucket.
+func ruleSmuxBuffers(w *World, r *Report, rule string) {
+	const defRecv, defStream = 4194304, 65536
+	n := 0
+	var bad []string
+	for fn := range allModuleFuncs(w, w.SSA()) {
+		allInstrs(fn, func(in ssa.Instruction) {
+			st, ok := in.(*ssa.Store)
+			if !ok {
+				return
+			}
+			fa := asFieldAddr(st.Addr)
+			if fa == nil {
+				return
+			}
+			fv := fieldVarOf(fa)
+			if fv == nil || fv.Pkg() == nil || fv.Pkg().Path() != "github.com/xtaci/smux" {
+				return
+			}
+			switch fv.Name() {
+			case "MaxReceiveBuffer":
+				n++
+				v, isC := constIntVal(st.Val)
+				if !isC {
+					bad = append(bad, fmt.Sprintf("%s: MaxReceiveBuffer is set to a non-constant value", w.Pos(st.Pos())))
+				} else if v < defRecv {
+					bad = append(bad, fmt.Sprintf("%s: MaxReceiveBuffer = %d is below smux's default of %d: the bucket is shared by all streams of the session, so one logical connection holding that much unread data stops the session's receive loop — every other logical connection (and every new open) hangs", w.Pos(st.Pos()), v, defRecv))
+				}
+			case "MaxStreamBuffer":
+				n++
+				v, isC := constIntVal(st.Val)
+				if !isC {
+					bad = append(bad, fmt.Sprintf("%s: MaxStreamBuffer is set to a non-constant value", w.Pos(st.Pos())))
+				} else if v > defRecv/2 {
+					bad = append(bad, fmt.Sprintf("%s: MaxStreamBuffer = %d lets one stream take more than half of the shared receive bucket", w.Pos(st.Pos()), v))
+				}
+				_ = defStream
+			}
+		})
+	}
+	sort.Strings(bad)
+	r.Check(len(bad) == 0, rule, "smux:receive-buffers", "-", fmt.Sprintf("%d override(s) of the smux receive buffers; the shared bucket keeps at least the library default", n), strings.Join(bad, "; "))
+}
+
+// ruleRouterMiddleware: the websocket endpoint handler does not return after the upgrade — it runs the whole
+// session (handshake reads included) inside the HTTP request. Middleware that limits requests in flight or
+// their duration therefore limits PEERS: stalled peers hold the tokens and everybody else gets 503, or
+// sessions are cut after the time-out.
+func ruleRouterMiddleware(w *World, r *Report, rule string) {
+	deny := map[string]string{"Throttle": "bounds the number of requests in flight", "ThrottleBacklog": "bounds the number of requests in flight",
+		"ThrottleWithOpts": "bounds the number of requests in flight", "Timeout": "bounds the duration of a request"}
+	n := 0
+	var bad []string
+	for fn := range allModuleFuncs(w, w.SSA()) {
+		f0 := fn
+		for f0.Parent() != nil {
+			f0 = f0.Parent()
+		}
+		if f0.Pkg == nil || f0.Pkg.Pkg.Path() != modPath+"/internal/server" {
+			continue
+		}
+		for _, c := range callsIn(fn) {
+			cc := c.Common()
+			name := ""
+			if cc.IsInvoke() {
+				name = cc.Method.Name()
+			} else if f := sCallee(c); f != nil {
+				name = f.Name()
+			}
+			if name != "Use" && name != "With" {
+				continue
+			}
+			// the variadic middleware list: every value stored into the varargs array
+			for _, a := range cc.Args {
+				sl, ok := a.(*ssa.Slice)
+				if !ok {
+					continue
+				}
+				al, ok := sl.X.(*ssa.Alloc)
+				if !ok {
+					continue
+				}
+				for _, ref := range *al.Referrers() {
+					ia, ok := ref.(*ssa.IndexAddr)
+					if !ok {
+						continue
+					}
+					for _, r2 := range *ia.Referrers() {
+						st, ok := r2.(*ssa.Store)
+						if !ok {
+							continue
+						}
+						n++
+						for _, root := range provenance(st.Val, provOpts{}) {
+							var mf *types.Func
+							switch x := root.(type) {
+							case *ssa.Function:
+								mf = fnObj(x)
+							case *ssa.Call:
+								mf = sCallee(x) // a middleware constructor such as Throttle(n)
+							}
+							if mf == nil || mf.Pkg() == nil || !strings.Contains(mf.Pkg().Path(), "chi") {
+								continue
+							}
+							if why, isDenied := deny[mf.Name()]; isDenied {
+								bad = append(bad, fmt.Sprintf("%s: middleware.%s %s, but this router's handlers run a whole tunnel session (and the peer's handshake) inside the request: peers that stall in the handshake hold the tokens and every other peer is answered 503 / sessions are cut", w.Pos(c.Pos()), mf.Name(), why))
+							}
+						}
+					}
+				}
+			}
+		}
+	}
+	sort.Strings(bad)
+	r.Check(len(bad) == 0 && n > 0, rule, "router:server|middleware", "-", fmt.Sprintf("%d middleware value(s) installed, none limits requests in flight or their duration", n), strings.Join(bad, "; ")+mapStr(n == 0, "no router middleware found (anchor moved?)"))
 }
